@@ -9,4 +9,5 @@ Extraction "../ocaml/gen/manifest_model.ml" wire_anchor
   Manifest.manifest Manifest.manifest_json Manifest.to_string
   Manifest.cli_default Manifest.cli_yaml_stream Manifest.cli_multi
   Manifest.fmt_to_string Manifest.fmt_manifest Manifest.fmt_std_ex Manifest.fmt_std_json Manifest.fmt_minified
+  Manifest.manifest_python Manifest.manifest_python_vars
   Manifest.erase_ws JsonDec.decode.
